@@ -394,7 +394,7 @@ def eigh_plan(chk):
             for rep in range(reps):
                 plan += [(n, d, "nondeg", None), (n, d, "rational", None), (n, d, "gap1e-3", None), (n, d, "tie2", None)]
                 if n >= 3:
-                    plan += [(n, d, "tie3", None), (n, d, "tieall", None)]
+                    plan += [(n, d, "tie3", None), (n, d, "tieall", None), (n, d, "wide", None)]
                 for k in range(4, 9):
                     if k >= 7 and d == 3:
                         continue
@@ -416,7 +416,7 @@ def eigen_derivative(chk, code, R, rng):
         if not o["wellformed"] or not all(g["cert"] for g in o["groups"]):
             raise MachineryError(f"Eigh oracle: instance {I['id']} ({I['cls']}) not well-formed / certificate failed")
         exact_tie = I["cls"].startswith("tie")
-        if o["nondegenerate"] != (I["cls"] in ("nondeg", "rational", "gap1e-3")):
+        if o["nondegenerate"] != (I["cls"] in ("nondeg", "rational", "gap1e-3", "wide")):
             raise MachineryError(f"Eigh oracle: instance {I['id']} ({I['cls']}) misclassified by the generator")
         n, s, M = I["n"], I["s"], I["M"].astype(float)
         A = np.array(o["anum"], dtype=float) / float(o["aden"])
